@@ -269,6 +269,7 @@ def float_tables(irimport, m, texts=()):
     for t in texts:
         lex.update(FLOAT_LEX.findall(t))
         lex.update(re.findall(r'-?\d+\.\d+', t))
+        lex.update(re.findall(r'\d+\.\d+(?:e[-+]?\d+)?|\d+e[-+]?\d+|inf|nan', t))
     tp = []
     for s in sorted(lex):
         try:
@@ -276,6 +277,105 @@ def float_tables(irimport, m, texts=()):
         except ValueError:
             pass
     return sorted(tr.items()), tp
+
+
+def repr_class(x):
+    """the lexer-relevant class of repr(x): (sign, mantissa form, exponent sign) or a word"""
+    r = repr(x)
+    if r.lstrip('-') in ('inf', 'nan'):
+        return r
+    body = r.lstrip('-')
+    mant, _, exp = body.partition('e')
+    return ('-' if r.startswith('-') else '+', 'frac' if '.' in mant else 'int',
+            'e' + exp[0] if exp else 'none')
+
+
+def float_pool(rng, extra=40):
+    """float constants generated from the spellings repr() can produce: sign x mantissa form (integral / with a
+    fraction) x exponent (none / e+NN / e-NN), the words inf, -inf, nan, the IEEE boundary values, and random ones.
+    Returns (list of floats, {class: count}).  (nan with sign or payload is excluded: repr prints 'nan', the text
+    cannot carry it.)"""
+    xs = []
+    for sg in ('', '-'):
+        for mant in ('1', '2', '5', '7', '1.5', '2.25', '1.7976931348623157', '2.2250738585072014', '9.999999999999999'):
+            for ex in ('', 'e+16', 'e+22', 'e+30', 'e+300', 'e+308', 'e-05', 'e-07', 'e-100', 'e-308', 'e-320', 'e-324'):
+                try:
+                    x = float(sg + mant + ex)
+                except ValueError:
+                    continue
+                xs.append(x)
+        for lit in ('0.0', '1.0', '123456789.0', '1000000000000000.0', '1e16', '9999999999999998.0', '0.1', '0.0001',
+                    '0.00001', '3.141592653589793', 'inf', '5e-324', '2.225073858507201e-308', '2.2250738585072014e-308',
+                    '1.7976931348623157e+308', '1.1754943508222875e-38', '3.4028234663852886e+38', '1.401298464324817e-45',
+                    '16777216.0', '0.333333343267441'):
+            xs.append(float(sg + lit))
+    xs.append(float('nan'))
+    for _ in range(extra):
+        k = rng.randrange(4)
+        if k == 0:
+            x = rng.choice((1, 2, 3, 5, 9)) * 10.0 ** rng.randint(-320, 308)
+        elif k == 1:
+            import struct
+            x = struct.unpack('<d', struct.pack('<Q', rng.getrandbits(64)))[0]
+        elif k == 2:
+            x = float(rng.randint(-10 ** 17, 10 ** 17))
+        else:
+            x = rng.uniform(-1, 1) * 10.0 ** rng.randint(-30, 30)
+        if x != x:
+            continue
+        xs.append(x if rng.random() < 0.5 else -x)
+    seen, out, classes = set(), [], {}
+    for x in xs:
+        r = repr(x)
+        if r in seen:
+            continue
+        seen.add(r)
+        out.append(x)
+        c = str(repr_class(x))
+        classes[c] = classes.get(c, 0) + 1
+    return out, classes
+
+
+def float_modules(ir, xs, name='fl', per=24):
+    """modules whose only content is float constants (f64 and f32) from xs"""
+    mods = []
+    for j in range(0, len(xs), per):
+        m = ir.Module('%s%d' % (name, j // per))
+        f = ir.Procedure('pr', ir.Binding.GLOBAL)
+        m.add_function(f)
+        b = ir.Block('entry')
+        f.add_block(b)
+        f.entry = b
+        for i, x in enumerate(xs[j:j + per]):
+            b.add_instruction(ir.Const(x, 'c%d' % i, ir.f64 if i % 3 else ir.f32))
+        b.add_instruction(ir.Exit())
+        mods.append(m)
+    return mods
+
+
+NEAR_MISSES = ['-', '1e', '1e+', '1e-', '.5', '5.', '--1', '-.5', '1e5', '1E+5', '1.5e', '1.5e+', '1.e+5', '1.5.5', '-inf',
+               '-info', '-inf_', '-inf1', 'inf', 'nan', '-nan', '- inf', '- 1e+30', '-1e+30', '-1e-05', '1e+30x', '+1e+5',
+               '1e+-5', '-1.5e+30', '-0.0', '-0', '00.5', '1e+05', '-5e-324', '1.0e+', 'e+5', '1_0', '1-e5', '-1e', '-1.e5',
+               '-2e+22;', '(-1e+16)', '=-1e-07', '- -1e+30', '-1e+30-1e+30', '1e+30e+30', '-inf-inf', '-1.5-inf']
+
+
+def lexer_cases(irimport, cfg, xs):
+    """token-level pool: every spelling repr() produces for xs, with and without a leading '-', plus near-misses;
+    one case per spelling (real tokenize vs model lex)"""
+    spell = []
+    for x in xs:
+        r = repr(x)
+        spell += [r, r.lstrip('-'), '-' + r.lstrip('-'), 'f64 c = ' + r + ';']
+    seen, cases, recs = set(), [], []
+    for sp in spell + NEAR_MISSES:
+        if sp in seen:
+            continue
+        seen.add(sp)
+        text = sp + '\n'
+        _, tp = float_tables(irimport, None, [text])
+        cases.append(('case_lex %s %s %s' % (cfg, tab_term(tp), lines_term(text)), impl_lex(irimport, text)))
+        recs.append(('lex-spelling', None, text))
+    return cases, recs
 
 
 def tab_term(tab):
@@ -353,7 +453,7 @@ def mutate(rng, text):
     return '\n'.join(lines) + '\n'
 
 
-def correspond(ctx, flags, mods):
+def correspond(ctx, flags, mods, lex_pool=()):
     """run model and implementation on the same modules/texts; returns (bad indices, recs, cases)"""
     import irimport
     cfg = cfg_term(flags)
@@ -398,17 +498,22 @@ def correspond(ctx, flags, mods):
                 cases.append(('okfail (case_read %s %s %s)' % (cfg, tab_term(tp2), lines_term(mt)),
                               rv if isinstance(rv, OkV) else Internal))
                 recs.append(('read-mutant', m, mt))
+    if lex_pool:
+        lc, lr = lexer_cases(irimport, cfg, lex_pool)
+        dist['lexer_spellings'] = len(lc)
+        cases += lc
+        recs += lr
     ctx.cov['distinct_nontrivial'] += nontriv
     ctx.cov['stages']['correspondence_distribution'] = dist
     if ctx.build(['Model/IrText.vo'])[0]:
         bad = ctx.run_cases('irtext', ['Spec.IRSyntax', 'Model.IrText'], cases, shard=60)
         if bad:
             for i in bad[:5]:
-                ctx.log('model/implementation disagree:', recs[i][0], 'module', recs[i][1].name)
+                ctx.log('model/implementation disagree:', recs[i][0], 'module', recs[i][1].name if recs[i][1] else '-')
                 if recs[i][2]:
                     ctx.log(recs[i][2][:600])
             ctx.failed_stages.append(('correspondence', 'Model.IrText disagrees with ppci.irutils on %d cases, first: %s of module %s'
-                                      % (len(bad), recs[bad[0]][0], recs[bad[0]][1].name)))
+                                      % (len(bad), recs[bad[0]][0], recs[bad[0]][1].name if recs[bad[0]][1] else repr(recs[bad[0]][2]))))
 
 
     return bad, recs, cases
@@ -454,7 +559,10 @@ def run(ctx):
         mods.append(irgen.gen_module(ctx.rng, size=1 + k % 4, features=feats, name='m%d' % k))
     for m in mods[len(mods) - n::max(1, n // 5)][:5]:
         ctx.note_sample({'module': m.name, 'stats': m.stats()})
-    correspond(ctx, flags, mods)
+    xs, classes = float_pool(ctx.rng, extra=40 if ctx.quick() else 400)
+    ctx.cov['stages']['float_pool'] = {'values': len(xs), 'repr_classes': classes}
+    mods += float_modules(ir, xs)
+    correspond(ctx, flags, mods, lex_pool=xs)
 
     # ---- 3. search (independent oracle), deeper when something failed or tier is thorough
     search(ctx, deep=(not ctx.quick()) or bool(ctx.failed_stages))
@@ -481,6 +589,18 @@ def search(ctx, deep=False):
     rng = random.Random(seed)
     sem = sem_compare(irgen, irsem_py)
     classes = {}
+    from ppci import ir
+    xs, fcls = float_pool(rng, extra=400 if deep else 100)
+    for j, m in enumerate(float_modules(ir, xs, name='sf', per=12)):
+        d = oracle(irimport, m)
+        if d is None:
+            continue
+        c = classify(d)
+        classes[c] = classes.get(c, 0) + 1
+        if classes[c] == 1:
+            ctx.violation({'fn': 'read_module(print_module(m))', 'key': c, 'class': c, 'difference': d,
+                           'generator': {'seed': seed, 'float_module': j}, 'text': _safe_text(m)[:4000]})
+    ctx.cov['stages']['oracle_search_floats'] = {'values': len(xs), 'repr_classes': len(fcls)}
     for k in range(n):
         # odd k: without the instruction kinds / flags that are known findings, so that the rest of such modules is
         # compared too (a module that cannot be read at all hides every other difference)
@@ -537,7 +657,9 @@ def corpus_modules(irgen, irimport, count=60):
         m = irgen.gen_module(rng, size=1 + k % 3, features=feats, name='c%d' % k)
         k += 1
         mods.append(m)   # incl. modules with a double use of a later-defined value (replace_use is repaired)
-    return mods
+    from ppci import ir
+    xs, _ = float_pool(rng, extra=30)
+    return mods + float_modules(ir, xs, name='cf', per=40)
 
 
 def regen(ctx):
